@@ -361,19 +361,22 @@ pub fn sfn_checksum(name: &[u8]) -> u8 {
 /// Specification LFN matcher: looks backwards from the short entry at index
 /// `i` of `slots`. `skip_deleted`: tolerate deleted slots between run and entry.
 fn match_lfn(slots: &[Slot], i: usize, skip_deleted: bool) -> Option<Vec<u16>> {
+    match_lfn_opt(slots, i, skip_deleted, true)
+}
+
+/// `strict_csum = false`: only the first (start-flagged) fragment's checksum is compared.
+pub fn match_lfn_opt(slots: &[Slot], i: usize, skip_deleted: bool, strict_csum: bool) -> Option<Vec<u16>> {
     let csum = sfn_checksum(&slots[i].raw);
     let mut j = i;
-    if skip_deleted {
-        while j > 0 && slots[j - 1].raw[0] == 0xE5 {
-            j -= 1;
-        }
-        if j == i {
-            return None;
-        }
-    }
     let mut frags: Vec<[u16; 13]> = Vec::new();
     let mut expect = 1u8;
     loop {
+        if skip_deleted {
+            // deleted slots are treated as transparent anywhere around the run
+            while j > 0 && slots[j - 1].raw[0] == 0xE5 {
+                j -= 1;
+            }
+        }
         if j == 0 {
             return None;
         }
@@ -383,7 +386,10 @@ fn match_lfn(slots: &[Slot], i: usize, skip_deleted: bool) -> Option<Vec<u16>> {
         }
         let seq = s[0] & 0x3F;
         let last = s[0] & 0x40 != 0;
-        if s[0] & 0x80 != 0 || seq != expect || s[13] != csum || seq == 0 || seq > 20 {
+        if s[0] & 0x80 != 0 || seq != expect || seq == 0 || seq > 20 {
+            return None;
+        }
+        if s[13] != csum && (strict_csum || last) {
             return None;
         }
         frags.push(lfn_units(s));
